@@ -1234,7 +1234,7 @@ const char *flatcc_json_parser_union_type_vector(flatcc_json_parser_t *ctx,
     e->count = count;
     size = count * utype_size;
     /* Store type vector so it is accessible to the table vector parser.  */
-    h_types = flatcc_builder_enter_user_frame(ctx->ctx, size);
+    if (!(h_types = flatcc_builder_enter_user_frame(ctx->ctx, size))) goto failed;
     types = flatcc_builder_get_user_frame_ptr(ctx->ctx, h_types);
     memcpy(types, flatcc_builder_vector_edit(ctx->ctx), size);
     if (!((ref = flatcc_builder_end_vector(ctx->ctx)))) goto failed;
